@@ -546,6 +546,39 @@ def Descr.isDelayed {ε : Type} : Descr ε → Bool
   | .delayedRep _ _ _ => true
   | _ => false
 
+/-- `isinstance(d, ReplicationDescriptor)` (the base class of the fixed and the delayed one) -/
+def Descr.isReplication {ε : Type} : Descr ε → Bool
+  | .fixedRep _ _ => true
+  | .delayedRep _ _ _ => true
+  | _ => false
+
+/-- `isinstance(d, FixedReplicationDescriptor)` -/
+def Descr.isFixed {ε : Type} : Descr ε → Bool
+  | .fixedRep _ _ => true
+  | _ => false
+
+/-- `isinstance(d, SequenceDescriptor)` (an `UndefinedSequenceDescriptor` is not one) -/
+def Descr.isSequence {ε : Type} : Descr ε → Bool
+  | .seq _ _ => true
+  | _ => false
+
+/-- `d.id` for every class; `eid`: the `id` attribute of a Table B element -/
+def Descr.idWith {ε : Type} (eid : ε → Int) : Descr ε → Int
+  | .elem e => eid e
+  | d => d.id
+
+/-- `d.members` (`[]` for the classes without members: the walks read it only after an `isinstance` test) -/
+def Descr.membersOf {ε : Type} : Descr ε → List (Descr ε)
+  | .fixedRep _ ms => ms
+  | .delayedRep _ _ ms => ms
+  | .seq _ ms => ms
+  | _ => []
+
+/-- `d.factor.id`: `AttributeError` when there is no factor (`None.id`) or `d` is not a delayed replication -/
+def Descr.factorId {ε : Type} (eid : ε → Int) : Descr ε → Except Exc Int
+  | .delayedRep _ (some f) _ => .ok (f.idWith eid)
+  | _ => .error (.raised "AttributeError")
+
 /-- `descriptor.factor = f` (only executed for a delayed replication descriptor) -/
 def Descr.setFactor {ε : Type} (d : Descr ε) (f : Descr ε) : Descr ε :=
   match d with
